@@ -756,4 +756,6 @@ def run(chk):
         common.pull_overrides_rule(chk, P, "C01.S2.props:pull-overrides")
         from . import c20
         c20.every_runtime_whole_rule(chk, P, "C01.S2.runtime:every-runtime-whole")
+    common.wrapper_family_rule(chk, P, "C01", "emit_core::emitter::Emitter", 5, forward=False)
+    common.wrapper_family_rule(chk, P, "C01", "emit_core::filter::Filter", 5, forward=False)
     return chk
